@@ -65,10 +65,11 @@ class StaticCondensation(Module):
     def _response(self, A):
         self.n = np.shape(A)[0]
         self.module_LinSolve.sig_in[0].state = A[self.f, ...][..., self.f]
-        self.module_LinSolve.sig_in[1].state = A[self.f, ...][..., self.m].todense()
+        Afm = A[self.f, ...][..., self.m]
+        self.module_LinSolve.sig_in[1].state = Afm.toarray() if matrix_is_sparse(Afm) else Afm
         self.module_LinSolve.response()
         self.X = self.module_LinSolve.sig_out[0].state
-        return A[self.m, ...][..., self.m] - A[self.m, ...][..., self.f] @ self.X
+        return np.asarray(A[self.m, ...][..., self.m] - A[self.m, ...][..., self.f] @ self.X)
 
     def _sensitivity(self, dfdB):
         C = np.zeros((self.n, len(self.m)), dtype=float)
